@@ -2,27 +2,28 @@ META = {
     "level": "model_checking",
     "technique": "TLA+ model of a re-exchange with in-flight connection-layer traffic, transport thread, user threads, clear_to_send and handler replies (Rekey.tla) model-checked by TLC incl. deadlock freedom (the pinned reply paths must be refuted); real transports on a latency-controlled in-memory link: every in-flight message kind x initiator x concurrent senders crosses a real re-exchange; outbound type sequences of both ends and the outcome validated by TLC (Rekey_Trace.tla)",
     "text": "TLC checks KexQuiet, SessionStaysUp, NoSelfWait and that every terminal state has completed the exchange with every in-flight request answered, over all delivery orders; on the code, the peer's message is held in the link until the initiator's KEXINIT is out, then released, with user threads sending meanwhile; TLC checks quietness between KEXINIT and NEWKEYS on both taps, completion, liveness of both ends, delivery of the in-flight message and integrity of the user data",
-    "note": "scenarios also cover every user-level sending API of the initiator and its keepalive timer during the exchange (toggle UngatedUser) and 2-3 reply-wanting requests crossing the KEXINIT (toggle FlushSkips); trusted: TLC, netsched hold/release (the in-flight message really is behind the initiator's KEXINIT in time), tap order = wire order, clear_to_send_timeout lowered to 2 s (an instance attribute) so a stalled exchange shows quickly; real-time: a scenario gets a 6 s deadline",
+    "note": "scenarios also cover every user-level sending API of the initiator and its keepalive timer during the exchange (toggle UngatedUser) and 2-3 reply-wanting requests crossing the KEXINIT (toggle FlushSkips) and a burst of 24 channel/global requests whose 24 held-back replies must all come out in request order (invariant NoReplyLost, toggle DeferCap); trusted: TLC, netsched hold/release (the in-flight message really is behind the initiator's KEXINIT in time), tap order = wire order, clear_to_send_timeout lowered to 2 s (an instance attribute) so a stalled exchange shows quickly; real-time: a scenario gets a 6 s deadline",
 }
 import random
 from harness.core import cfg_text, Machinery
 from harness.drivers import rekey as rk
 
 
-def consts(mode, a_client, inflight=("plain", "wants_user_reply", "wants_direct_reply"), n=2, u=2, lock=True, ungated=False, skips=False):
+def consts(mode, a_client, inflight=("plain", "wants_user_reply", "wants_direct_reply"), n=2, u=2, lock=True, ungated=False, skips=False, cap=0):
     return {"ReplyMode": mode, "AIsClient": a_client, "Inflight": set(inflight), "MaxInflight": n, "UserMsgs": u,
-            "KexinitTakesLock": lock, "UngatedUser": ungated, "FlushSkips": skips}
+            "KexinitTakesLock": lock, "UngatedUser": ungated, "FlushSkips": skips, "DeferCap": cap}
 
 
 INVS = ["KexQuiet", "SessionStaysUp", "NoSelfWait"]
+INVS_D = INVS + ["NoReplyLost"]      # deferred design: no held-back reply is ever dropped
 
 
 def run(c):
     for a_client in (True, False):
-        c.mc_holds("Rekey", cfg_text(constants=consts("deferred", a_client), invariants=INVS, deadlock=True),
+        c.mc_holds("Rekey", cfg_text(constants=consts("deferred", a_client), invariants=INVS_D, deadlock=True),
                    name="deferred replies, initiator is %s" % ("client" if a_client else "server"))
     if not c.quick:
-        c.mc_holds("Rekey", cfg_text(constants=consts("deferred", True, n=3, u=3), invariants=INVS, deadlock=True),
+        c.mc_holds("Rekey", cfg_text(constants=consts("deferred", True, n=3, u=3), invariants=INVS_D, deadlock=True),
                    name="deferred replies, 3 in flight, 3 user messages")
     c.mc("Rekey", cfg_text(constants=consts("pinned", True, inflight=("plain", "wants_user_reply")), invariants=INVS, deadlock=True),
          expect="NoSelfWait|SessionStaysUp", name="sensitivity: reply via _send_user_message on the transport thread")
@@ -37,6 +38,9 @@ def run(c):
 
     c.mc("Rekey", cfg_text(constants=consts("deferred", True, inflight=("wants_user_reply", "wants_direct_reply"), n=2, u=0, skips=True), invariants=INVS, deadlock=True),
          expect="<deadlock>", name="sensitivity: the flush at NEWKEYS skips every second held-back reply (a request stays unanswered)")
+
+    c.mc("Rekey", cfg_text(constants=consts("deferred", True, inflight=("wants_user_reply", "wants_direct_reply"), n=3, u=0, cap=1), invariants=INVS_D, deadlock=True),
+         expect="NoReplyLost", name="sensitivity: the list of held-back replies is capped (cap 1, so at most 2 are kept; 3 requests cross): an older reply is dropped")
 
     rnd = random.Random(c.seed)
     batch = []
@@ -62,6 +66,14 @@ def run(c):
             obs = rk.run_scenario(init, "requests_x%d" % nreq)
             batch.append(obs)
             c.case(key=(init, "requests_x%d" % nreq, 1))
+    # a burst of 24 reply-wanting requests (known and unknown request types alternating, so the expected reply sequence
+    # is a pattern of SUCCESS / FAILURE) crosses the KEXINIT: all 24 replies are held back and must all come out, in order
+    for init in ("client", "server"):
+        obs = rk.run_scenario(init, "requests_x24")
+        if obs["inflight_units"] < 24:
+            raise Machinery("driver: only %d of 24 requests reached the held queue" % obs["inflight_units"])
+        batch.append(obs)
+        c.case(key=(init, "requests_x24", 1), sample=obs if init == "server" else None)
     # every user-level sending API of the initiator used from application threads during the exchange, and its keepalive timer firing
     for init in ("client", "server"):
         for apis in ("user_apis", "keepalive_timer"):
